@@ -178,6 +178,9 @@ class TriggerHandler:
             logging.debug("Callbacks registered: %s", callbacks)
             self._callbacks.get().append(
                 CallbackContext(event, file, line, function, callbacks, frame))
+            # the pending context owns them now; the callbacks refer back to the trigger context, keeping them there as
+            # well would be a reference cycle that only the garbage collector can free (with the application's frame)
+            trigger_context.callbacks = []
 
         return self.trace_call
 
